@@ -22,11 +22,45 @@ import sys
 import time
 
 ROOT = os.path.dirname(os.path.dirname(os.path.abspath(__file__)))
-COQ = os.path.join(ROOT, "coq")
 BUILD = os.path.join(ROOT, "build")
-HARNESS = os.path.join(ROOT, "harness")
-TARGET = os.path.join(BUILD, "target")
-REPO = "/repo"
+# VERIF_REPO=<dir>: run the same check against another checkout of routee-compass (a scratch
+# worktree with a seeded change) without touching /repo, /verif/coq, /verif/evidence: everything
+# that depends on the repository (harness build, generated Coq tables, cases, evidence, replay
+# files) then lives under build/alt/<name>/.
+ALT = os.environ.get("VERIF_REPO")
+if ALT:
+    ALT = os.path.abspath(ALT)
+    REPO = ALT
+    BASE = os.path.join(BUILD, "alt", os.path.basename(ALT.rstrip("/")))
+    COQ = os.path.join(BASE, "coq")
+    HARNESS = os.path.join(BASE, "harness")
+    TARGET = os.path.join(BASE, "target")
+    OUT = BASE
+else:
+    REPO = "/repo"
+    BASE = BUILD
+    COQ = os.path.join(ROOT, "coq")
+    HARNESS = os.path.join(ROOT, "harness")
+    TARGET = os.path.join(BUILD, "target")
+    OUT = ROOT
+
+
+def prepare_alt():
+    """mirror coq/ and harness/ for an alternative repository checkout"""
+    if not ALT:
+        return
+    os.makedirs(BASE, exist_ok=True)
+    subprocess.run(["rsync", "-a", "--exclude", "Gen/*.v", "--exclude", "Gen/*.vo", "--exclude", "Gen/*.glob",
+                    "--exclude", ".Makefile.d", os.path.join(ROOT, "coq") + "/", COQ + "/"], check=True)
+    os.makedirs(os.path.join(HARNESS, ".cargo"), exist_ok=True)
+    src = os.path.join(HARNESS, "src")
+    if os.path.islink(src):
+        os.remove(src)
+    os.symlink(os.path.join(ROOT, "harness", "src"), src)
+    toml = open(os.path.join(ROOT, "harness", "Cargo.toml")).read().replace('"/repo/', '"%s/' % ALT)
+    write_if_changed(os.path.join(HARNESS, "Cargo.toml"), toml)
+    write_if_changed(os.path.join(HARNESS, ".cargo", "config.toml"),
+                     '[net]\noffline = true\n[build]\ntarget-dir = "%s"\n' % TARGET)
 GUARD = "compass_verif"
 NPROC = os.cpu_count() or 8
 
@@ -60,8 +94,8 @@ def sh(cmd, cwd=None, timeout=3600, env=None, quiet=True):
 
 class Lock:
     def __init__(self, name):
-        os.makedirs(BUILD, exist_ok=True)
-        self.path = os.path.join(BUILD, "." + name + ".lock")
+        os.makedirs(BASE, exist_ok=True)
+        self.path = os.path.join(BASE, "." + name + ".lock")
 
     def __enter__(self):
         self.f = open(self.path, "w")
@@ -78,6 +112,10 @@ def build_harness(binname, profile="release"):
     """cargo build of one harness binary against the current /repo tree. Returns (path, log) or raises."""
     with Lock("cargo"):
         lock_src = os.path.join(REPO, "rust", "Cargo.lock")
+        if not os.path.exists(lock_src):
+            lock_src = "/repo/rust/Cargo.lock"
+        if not os.path.exists(lock_src):
+            lock_src = os.path.join(ROOT, "harness", "Cargo.lock.pinned")
         lock_dst = os.path.join(HARNESS, "Cargo.lock")
         if not os.path.exists(lock_dst):
             shutil.copy(lock_src, lock_dst)
@@ -379,7 +417,8 @@ class Check:
                          "obligations": 0, "discharged": 0, "checker_cmd": "", "trusted_base": [],
                          "traces_validated_against_impl": 0, "streams": {}}
         self.assumptions = []
-        self.outdir = os.path.join(BUILD, "cases", prop)
+        prepare_alt()
+        self.outdir = os.path.join(BASE, "cases", prop)
         kf = json.load(open(os.path.join(ROOT, "known_findings.json")))
         self.findings = [f for f in kf.get("findings", []) if f["property"] == prop]
         self.seen_keys = set()
@@ -443,7 +482,7 @@ class Check:
         return {f["id"] for f in self.findings}
 
     def finish(self):
-        os.makedirs(os.path.join(ROOT, "evidence", "replay"), exist_ok=True)
+        os.makedirs(os.path.join(OUT, "evidence", "replay"), exist_ok=True)
         for k in self.known:
             print(k)
         # at most a handful of VIOLATION lines: concrete failing inputs first
@@ -452,7 +491,7 @@ class Check:
         for v in vs:
             if printed >= 5:
                 break
-            path = os.path.join(ROOT, "evidence", "replay", "%s-%s.json" % (self.prop, v["key"]))
+            path = os.path.join(OUT, "evidence", "replay", "%s-%s.json" % (self.prop, v["key"]))
             v["cmd"] = "cd /verif && ./check %s --replay %s" % (self.prop, path)
             json.dump(v, open(path, "w"), indent=1, default=str)
             tail = "" if v["found_failing_input"] else " no-failing-input-found"
@@ -464,7 +503,7 @@ class Check:
         ev = {"property_id": self.prop, "tier": self.tier, "seed": self.seed, "level": "proof",
               "coverage": c, "assumptions": self.assumptions, "wall_s": round(time.time() - self.t0, 1),
               "violations": len(self.violations), "known_findings_reported": self.known}
-        json.dump(ev, open(os.path.join(ROOT, "evidence", "%s.json" % self.prop), "w"), indent=1, default=str)
+        json.dump(ev, open(os.path.join(OUT, "evidence", "%s.json" % self.prop), "w"), indent=1, default=str)
         log("%s %s: %d violations, %d known findings, %.1fs" % (self.prop, self.tier, len(self.violations), len(self.known), time.time() - self.t0))
         return 1 if self.violations else 0
 
